@@ -52,7 +52,7 @@ add("C11", "model_checking",
     "sequences whose one-per-call run contains an error element are outside the property's domain (counted, not judged); trusted: c11::judge",
     "bounded-exhaustive enumeration of sequences x all partitions (stateless exploration of real code, differential oracle)", "DESIGN.md §5 C11", "E-ENUM")
 add("C12", "model_checking",
-    "All 64 allowed-version sets (16 subsets of {5,7,9,10} x extras {none, {6}, {0,11,65535}, 24 numbers aliasing 5/7/9/10 under mod-2^k masks and byte swap}) x every buffer of 1..=3 (thorough 4) packets over a 26-packet menu (incl. five well-formed packets whose version field aliases a real one in its low byte or byte-swapped) x 6 prior histories delivered under the configuration (two contain unparsable versions and garbage) and 3 delivered before the configuration is narrowed, the buffer delivered twice; EVERY call of the history is compared with a parser that allows all 65 536 versions started from the state the subject should be in: result = maximal leading part with allowed versions; caches = those of the all-allowing parser fed only that part; unknown allowed versions are UnknownVersion errors; allowed_versions itself is unchanged by every call.",
+    "All 64 allowed-version sets (16 subsets of {5,7,9,10} x extras {none, {6}, {0,11,65535}, 24 numbers aliasing 5/7/9/10 under mod-2^k masks and byte swap}) x every buffer of 1..=3 (thorough 4) packets over a 29-packet menu (incl. three one-byte tails and five well-formed packets whose version field aliases a real one in its low byte or byte-swapped) x 6 prior histories delivered under the configuration (two contain unparsable versions and garbage) and 3 delivered before the configuration is narrowed, the buffer delivered twice; EVERY call of the history is compared with a parser that allows all 65 536 versions started from the state the subject should be in: result = maximal leading part with allowed versions; caches = those of the all-allowing parser fed only that part; unknown allowed versions are UnknownVersion errors; allowed_versions itself is unchanged by every call.",
     "trusted: c12::judge",
     "bounded-exhaustive enumeration of configurations x buffers x states (differential oracle)", "DESIGN.md §5 C12", "E-ENUM")
 add("C13", "model_checking",
@@ -69,7 +69,7 @@ add("C15", "model_checking",
     "the constants of the laws are chosen with head-room over the measured benign maxima (reported in the evidence); coverage is the ladder and the grammar product, not all buffers; trusted: alloc.rs, sweep.rs",
     "bounded-exhaustive execution sweep with allocation accounting (stateless exploration of real code)", "DESIGN.md §5 C15", "E-SWEEP")
 add("C16", "model_checking",
-    "Every parse result of C04's and C05's conformant stream spaces (every field type x width x value menu incl. 128-bit extremes, NaN/inf/-0.0, invalid UTF-8, empty values), V5/V7 walking byte, and the byte-deviation / truncation / tiny-buffer families (error elements with arbitrary remaining bytes), plus streams that define up to 4097 (thorough 9000) template ids and then send data for every id, is serialised with serde_json::to_writer: must succeed, parse with the harness' own order-preserving reader, be byte-identical when repeated and across two parser instances fed the same history, and equal the tree built by hand from the decoded structure (exact number tokens, floats by bit pattern, record keys in ascending field index).",
+    "Every parse result of C04's and C05's conformant stream spaces (every field type x width x value menu incl. 128-bit extremes, NaN/inf/-0.0, invalid UTF-8, empty values), V5/V7 walking byte, and the byte-deviation / truncation / tiny-buffer families (error elements with arbitrary remaining bytes), 48 large failing packets (300 .. 65 000 bytes), plus streams that define up to 4097 (thorough 9000) template ids and then send data for every id, is serialised with serde_json::to_writer: must succeed, parse with the harness' own order-preserving reader, be byte-identical when repeated and across two parser instances fed the same history, and equal the tree built by hand from the decoded structure (exact number tokens, floats by bit pattern, record keys in ascending field index).",
     "trusted: json.rs and c16::expected (serde derive conventions of the public types, pinned by the repository's YAML snapshots)",
     "bounded-exhaustive enumeration of results with an independent reader and hand-built expected tree", "DESIGN.md §5 C16", "E-ENUM")
 add("C17", "model_checking",
